@@ -266,6 +266,9 @@ var c15Offers = [][]string{
 	{"PERMESSAGE-DEFLATE"},
 	{"permessage-deflate;"},
 	{"foo=\"a, permessage-deflate\""},
+	{"foo; bar=\"a\\\", permessage-deflate, x=\""},
+	{"foo; bar=\"x, permessage-deflate\""},
+	{"foo; bar=\"\\\\\", permessage-deflate"},
 	{""},
 }
 
